@@ -283,6 +283,32 @@ func vC10Scenario(name string, seed uint64) string {
 		cs := conns
 		mu.Unlock()
 		return w.aftermath(cs, time.Since(start))
+	case "write-timed-out-before-stop":
+		// a peer which stops reading: the server's write times out and its write pump leaves; the
+		// session must be gone completely (socket, read pump) when Stop has returned
+		w := vC10Setup(r, WithHTTPReadTimeout(time.Second, 60*time.Millisecond))
+		c, err := vRawDial(w.addr, w.keys[0], w.skey.Pub)
+		if err != nil {
+			return "setup"
+		}
+		vWaitUntil(2*time.Second, func() bool { return w.s.OpenConnections() == 1 })
+		big := vAppMsg("x", make([]byte, 4<<20), "")
+		for i := 0; i < 12 && w.s.OpenConnections() == 1; i++ {
+			ctx, cn := context.WithTimeout(context.Background(), 150*time.Millisecond)
+			_ = w.s.Invoke(peer.NewCallContext(ctx, w.keys[0].Static()), "Echo", big, &message.Response{})
+			cn()
+		}
+		if !vWaitUntil(3*time.Second, func() bool { return w.s.OpenConnections() == 0 }) {
+			return "gate-script-infeasible/write-did-not-time-out"
+		}
+		start := time.Now()
+		if !vStop(w.s, 6*time.Second) {
+			return "stop-hangs/" + strings.Join(vParked(), ",")
+		}
+		took := time.Since(start)
+		time.Sleep(50 * time.Millisecond)
+		// the peer drains what was sent and must then see the end of the connection
+		return w.aftermath([]*websocket.Conn{c}, took)
 	case "concurrent-admin":
 		w := vC10Setup(r)
 		c, err := vRawDial(w.addr, w.keys[0], w.skey.Pub)
@@ -333,7 +359,7 @@ func vC10Scenario(name string, seed uint64) string {
 	return "unknown-scenario"
 }
 
-var vC10Names = []string{"open-sessions", "idle-longer-than-write-timeout", "calls-both-directions", "handshakes-in-progress", "concurrent-admin"}
+var vC10Names = []string{"open-sessions", "idle-longer-than-write-timeout", "calls-both-directions", "handshakes-in-progress", "concurrent-admin", "write-timed-out-before-stop"}
 
 func TestVerifC10Child(t *testing.T) {
 	spec := vChildSpec()
